@@ -32,6 +32,8 @@ class Decoders:
         self.interp = sym.Interp(repo)
         self.reg = registry.load_all(repo)
         self._cache: Dict[Tuple[str, str], Decoded] = {}
+        LOOKUP_METHODS.clear()
+        LOOKUP_METHODS.update(lookup_derived_methods(repo))
 
     def entries(self, family: Optional[str] = None):
         for fam, es in self.reg.items():
@@ -52,7 +54,16 @@ class Decoders:
             found = self.repo.lookup(obj.a[0])
             ci: ClassInfo = found[2]
             d.cls = ci
-            if "__str__" in ci.methods:
+            import ast as _ast
+            wrappers = [_ast.unparse(x) for x in ci.node.decorator_list
+                        if (self.repo.dotted(ci.module, x.func if isinstance(x, _ast.Call) else x) or "")
+                        not in ("dataclasses.dataclass", "dataclass", "functools.total_ordering")]
+            if wrappers:
+                # a class decorator of the package may replace methods (a wrapped __str__): what the class renders is then not
+                # what its own __str__ says
+                d.problems.append(f"class {ci.qualname} is passed through the decorator {wrappers[0]}: its rendering may be "
+                                  f"replaced by it")
+            elif "__str__" in ci.methods:
                 srec = self.interp.run(ci.module, ci.methods["__str__"], {"self": obj}, self_cls=ci)
                 d.str_rec = srec
                 d.str_term = srec.return_term()
@@ -83,7 +94,41 @@ def _event_ref(t: T) -> Optional[Tuple[str, T]]:
     return None
 
 
-LOOKUP_METHODS = ("parse_vnode", "parse_vnodes")
+LOOKUP_METHODS = {"parse_vnode", "parse_vnodes"}
+_LOOKUP_BASE = {"parse_vnode", "parse_vnodes", "vnode_generator"}
+
+
+def lookup_derived_methods(repo: Repo) -> Set[str]:
+    """Methods of TracesParser whose result is made of nothing but the nested lookups of the records they are given: the two
+    basic ones and every helper built on them (`parse_vnode_pair`, `parse_paths` ...) - a method qualifies when everything it
+    touches on `self` is such a method, the code table or a name predicate, and it stores nothing."""
+    import ast as _ast
+    try:
+        tp = repo.cls("traces_parser", "TracesParser")
+    except Exception:
+        return {"parse_vnode", "parse_vnodes"}
+    derived = set(_LOOKUP_BASE) & set(tp.methods)
+    neutral = {"trace_codes"}
+    # predicates on a record's name: methods whose body only reads self.trace_codes
+    for name, fn in tp.methods.items():
+        attrs = {n.attr for n in _ast.walk(fn) if isinstance(n, _ast.Attribute) and isinstance(n.value, _ast.Name) and n.value.id == "self"}
+        stores = any(isinstance(n, (_ast.Attribute, _ast.Subscript)) and isinstance(n.ctx, (_ast.Store, _ast.Del)) for n in _ast.walk(fn))
+        if attrs and attrs <= {"trace_codes"} and not stores and len(fn.args.args) == 2:
+            neutral.add(name)
+    changed = True
+    while changed:
+        changed = False
+        for name, fn in tp.methods.items():
+            if name in derived or name in neutral or name.startswith("__"):
+                continue
+            attrs = {n.attr for n in _ast.walk(fn) if isinstance(n, _ast.Attribute) and isinstance(n.value, _ast.Name)
+                     and n.value.id in ("self", "cls", "TracesParser")}
+            stores = any(isinstance(n, (_ast.Attribute, _ast.Subscript)) and isinstance(n.ctx, (_ast.Store, _ast.Del))
+                         for n in _ast.walk(fn))
+            if attrs and attrs <= (derived | neutral) and (attrs & derived) and not stores:
+                derived.add(name)
+                changed = True
+    return derived - {"vnode_generator"}
 
 
 def strip_conditions(t: T) -> T:
